@@ -162,4 +162,14 @@ theorem thinModel_sameComps (b : Bin) (m : Int) : SameComps (bset b) (bset (thin
   rw [hA, hB] at hsh
   exact hsh
 
+/-! ## `fill_convexhull` -/
+
+theorem fillHullModel_superset (b : Bin) (y x : Int) (h : b.get y x = true) :
+    (fillHullModel b).get y x = true := by
+  obtain ⟨h0, h1, h2, h3⟩ := get_inrange b y x h
+  unfold fillHullModel
+  simp only
+  rw [Bin.get_tabulate]
+  simp [h, h0, h1, h2, h3]
+
 end Mahotas.C15
